@@ -147,7 +147,7 @@ pub fn build_runner(plan: &Plan) -> SimRunner {
     let mut r: SimRunner = runner::Basic::default().steps(build_collection(plan));
     match cfg.builder_concurrency {
         crate::plan::BuilderLimit::Unset => {}
-        crate::plan::BuilderLimit::Unlimited => r = r.max_concurrent_scenarios(None),
+        crate::plan::BuilderLimit::Unlimited => r = r.max_concurrent_scenarios(2).max_concurrent_scenarios(None),
         crate::plan::BuilderLimit::Limit(n) => r = r.max_concurrent_scenarios(n),
     }
     if let Some(n) = cfg.builder_retries {
